@@ -135,6 +135,15 @@ static Plan plan_C01(Rng& r, const std::string& tier) {
 				else g.push(mk(c, "et_incl", {a, b, long(r.below(100) < 88 ? r.below(8) : 8 + r.below(5)), long(r.below(2))}));
 				if (r.chance(1, 6)) g.push(mk(c, "et_incl", {b, a, long(r.below(8)), long(r.below(2))}));
 			}
+			if (r.chance(1, 6)) {
+				// the two operands SHARE their rule storage and differ in their final states only: a copy whose final set is changed
+				int a2 = g.push(mk(c, "et_copy", {a}), 0);
+				if (r.chance(1, 4)) g.push(mk(c, "et_erase_finals", {a2}));
+				{ std::set<long> st = A.states(); std::vector<long> sv(st.begin(), st.end()); int kf = r.range(1, 2); for (int i = 0; i < kf && !sv.empty(); ++i) g.push(mk(c, "et_final", {a2, r.pick(sv)})); }
+				g.push(mk(c, "et_incl", {a2, a, long(r.below(8)), long(r.below(2))}));
+				g.push(mk(c, "et_incl", {a, a2, long(r.below(8)), long(r.below(2))}));
+				if (r.chance(1, 2)) g.push(mk(c, "et_incl_all", {r.chance(1, 2) ? a2 : a, r.chance(1, 2) ? a : a2, long(r.below(100000))}));
+			}
 			if (r.chance(1, 5)) {
 				// one operand OBJECT gets another value (a near relative is copy-assigned over it) and the question is asked again
 				g.push(mk(c, "et_twist", {r.chance(1, 2) ? a : b, long(r.below(100000)), long(r.below(4))}));
